@@ -276,6 +276,9 @@ type txSess struct {
 	// itself; whether that one is still "explicit" is not something the properties speak about,
 	// so the generator makes the session's next statement a COMMIT or ROLLBACK.
 	mustReset bool
+	// known finding txFindingStaleTx: the session's last statement was a failed DML in autocommit
+	// mode; its next statement is a ROLLBACK
+	staleTx bool
 
 	checkout string // branch selected with dolt_checkout (default main)
 	revdb    string // branch selected with USE `db/branch`, "" when the base database is current
